@@ -78,11 +78,13 @@ def Gc.cur (g : Gc) : List Nat := if g.w then g.wb1 else g.wb0
 /-- the other list -/
 def Gc.oth (g : Gc) : List Nat := if g.w then g.wb0 else g.wb1
 
-/-- `gc_new(mem_size)`; the C code needs `mem_size ≥ 2` (it sets `free = 1`) -/
+/-- `gc_new(mem_size)`: cell 0 is the nil cell, the free list starts at cell 1 when there is one (a one-cell heap has an empty
+free list: the first allocation reports "out of memory"; before repo fix 81ab775 the C code set `free = 1` regardless and `-m 1`
+handed out a cell that does not exist) -/
 def Gc.new (n : Nat) : Gc :=
   { mem := (Array.range n).map fun i =>
       { mark := false, obj := none, next := if i = 0 ∨ i + 1 = n then 0 else i + 1 }
-    free := 1, w := false, wb0 := [], wb1 := [] }
+    free := if 1 < n then 1 else 0, w := false, wb0 := [], wb1 := [] }
 
 /-- `gc_alloc_any`: `none` = "out of memory" (the C code prints and exits) -/
 def Gc.alloc (g : Gc) (o : Obj) : Option (Gc × Nat) :=
